@@ -54,6 +54,17 @@ Theorem C18_rw_log_order :
 Proof. exact glog_order. Qed.
 Print Assumptions C18_rw_log_order.
 
+(* real-time order: continuing a run only appends to the log, one entry per new
+   acquire; so an operation already returned (its entry is in [glog g], theorem
+   C18_rw_return_is_logged) precedes every operation called afterwards *)
+Theorem C18_rw_log_grows :
+  forall (St Arg Res Loc Op : Type) (bodies : Op -> body St Arg Res Loc) (modes : Op -> mode)
+         (g : gstate St Arg Res Loc Op) tr g',
+  run bodies modes g tr g' ->
+  exists rest, glog g' = (glog g ++ rest)%list /\ map entry_tid rest = acq_tids tr.
+Proof. exact run_log_grows. Qed.
+Print Assumptions C18_rw_log_grows.
+
 Theorem C18_rw_acquire_between_call_and_return :
   forall (St Arg Res Loc Op : Type) (bodies : Op -> body St Arg Res Loc) (modes : Op -> mode)
          s0 tr (g : gstate St Arg Res Loc Op) t,
